@@ -91,6 +91,16 @@ pub fn entries() -> &'static Vec<Entry> {
             entry::<RegionSut<OptVecU32>>(),
             entry::<RegionSut<ResVecVec>>(),
             entry::<RegionSut<SliceVecU32>>(),
+            entry::<RegionSut<MirrorU16>>(),
+            entry::<RegionSut<MirrorU32>>(),
+            entry::<RegionSut<MirrorI8>>(),
+            entry::<RegionSut<MirrorI32>>(),
+            entry::<RegionSut<MirrorIsize>>(),
+            entry::<RegionSut<Tup8>>(),
+            entry::<RegionSut<SliceHuffU8>>(),
+            entry::<RegionSut<PairsHuffU8>>(),
+            entry::<RegionSut<OptSliceStr>>(),
+            entry::<RegionSut<Bench>>(),
             entry::<RegionSut<HuffU8>>(),
             entry::<RegionSut<HuffU16>>(),
             entry::<RegionSut<Codec>>(),
@@ -116,6 +126,10 @@ pub fn entries() -> &'static Vec<Entry> {
             entry::<StackSut<ColsPairsStr, Vec<usize>>>(),
             entry::<StackSut<VecU32, IndexOptimized>>(),
             entry::<StackSut<HuffU8, Vec<P2>>>(),
+            entry::<StackSut<SliceU8, Vec<P2>>>(),
+            entry::<StackSut<ColsOwnedU8, IndexOptimized>>(),
+            entry::<StackSut<PairsOwnedU8, IL>>(),
+            entry::<StackSut<TupABC, Vec<(P2, Option<i64>, P2)>>>(),
         ]
     })
 }
